@@ -59,7 +59,7 @@ class C07Engine(Engine):
         if tier == 'smoke':
             return [('fleet', 6, 2)]
         if tier == 'thorough':
-            return [('fleet', 40000, 10)]
+            return [('fleet', 15000, 10)]
         return [('fleet', 300, 3)]
 
     def run(self, tape, kind):
